@@ -60,6 +60,9 @@ type Obligation struct {
 	block   *ssa.BasicBlock
 	bg      *string
 	Result  *SolveResult
+	RawQuery string // a complete query (audits); bypasses the function VC
+	RawBits  int
+	Witness  string
 	Replay  *ReplayResult
 	Vars    []ModelVar
 }
